@@ -178,7 +178,7 @@ class ParseAbandoned(Exception):
     """Raised *into* a parse that did not finish within PARSE_LIMIT_S (see guard)."""
 
 
-PARSE_LIMIT_S = 8.0
+PARSE_LIMIT_S = 15.0
 ABANDONED = [0]
 
 
@@ -361,7 +361,19 @@ def judge_parse(ctx, case, cfgd, cfg, T, inp, offset=0, label="parse", sig_prefi
             if "eof_partial" in exp[3] or "tail_padding_missing" in exp[3]:
                 ctx.event("accepted_error_on_partial_tail")
             elif isinstance(r[1], ParseAbandoned):
-                viol("raises", "reader-does-not-finish-on-input-the-model-reads", limit_s=PARSE_LIMIT_S, want=want)
+                # confirm on an otherwise idle interpreter state with five times the limit before saying so (a loaded
+                # machine must not turn into a verdict); the model needed milliseconds for the same bytes
+                global PARSE_LIMIT_S
+                keep = PARSE_LIMIT_S
+                PARSE_LIMIT_S = keep * 5
+                try:
+                    r2 = outcome(T, inp, offset)
+                finally:
+                    PARSE_LIMIT_S = keep
+                if r2[0] == "err" and isinstance(r2[1], ParseAbandoned):
+                    viol("raises", "reader-does-not-finish-on-input-the-model-reads", limit_s=keep * 5, want=want)
+                else:
+                    ctx.event("slow_parse_finished_on_second_attempt")
             else:
                 viol("raises", f"reader-raises-on-complete-input:{type(r[1]).__name__}", error=lib.exc_sig(r[1]),
                      want=want)
